@@ -176,6 +176,13 @@ def _export_names(exp):
     return names
 
 
+_UNKNOWN = object()
+
+
+def dispatch_unknown():
+    return _UNKNOWN
+
+
 def export_run(exp, ext, data_type, cplx, what):
     """Effects of export() for a file extension, a data type (None: grid export) and real/complex data."""
     body = [s for s in exp.body if not (isinstance(s, ast.Expr) and isinstance(s.value, ast.Constant)) and not isinstance(s, (ast.Import, ast.ImportFrom))]
@@ -188,9 +195,30 @@ def export_run(exp, ext, data_type, cplx, what):
         env.update({"grid": "‹grid›", "grid_function": "‹gf›", "data_type": data_type})
     else:
         env.update({"grid": None, "grid_function": "‹gf›", "data_type": data_type})
+    # abstract predicates over the evaluated data.  Three worlds: real dtype (False); complex dtype with some non-zero
+    # imaginary part (True); complex dtype whose imaginary parts all happen to be 0 ("zeroimag" - a complex function
+    # stays complex: its file must carry 'real' and 'imag' whatever its values are)
+    is_cdtype = cplx in (True, "zeroimag")
+    some_imag = cplx is True
     for c in ast.walk(exp):
-        if isinstance(c, ast.Call) and unparse(c.func).split(".")[-1] == "iscomplexobj":
-            env[unparse(c)] = cplx  # abstract predicate: the evaluated data are complex / real
+        if not isinstance(c, ast.Call):
+            continue
+        f = unparse(c.func).split(".")[-1]
+        inner = c.args[0] if c.args else (c.func.value if isinstance(c.func, ast.Attribute) else None)
+        inner_f = unparse(inner.func).split(".")[-1] if isinstance(inner, ast.Call) else None
+        if f == "iscomplexobj":
+            env[unparse(c)] = is_cdtype
+        elif f == "isrealobj":
+            env[unparse(c)] = not is_cdtype
+        elif f == "any" and inner_f == "iscomplex":
+            env[unparse(c)] = some_imag
+        elif f == "all" and inner_f == "isreal":
+            env[unparse(c)] = not some_imag
+        elif f == "all" and inner_f == "iscomplex":
+            env[unparse(c)] = False if not some_imag else dispatch_unknown()
+        elif f == "any" and inner_f == "isreal":
+            env[unparse(c)] = True if not some_imag else dispatch_unknown()
+    env = {k: v for k, v in env.items() if v is not _UNKNOWN}
     effs = dispatch.effects(body, env, "export", pinned=(EXT,))
     sets = {e[1]: e[2] for e in effs if e[0] == "set"}
     stores = [(e[1], e[2]) for e in effs if e[0] == "store"]
@@ -224,7 +252,7 @@ def export_dispatch(ctx, first_key):
     # (2) grid-function export
     for dt, src in (("node", "evaluate_on_vertices"), ("element", "evaluate_on_element_centers")):
         D = "_transform_array(grid_function.%s(), transformation).T" % src
-        for cplx in (True, False):
+        for cplx in (True, False, "zeroimag"):
             effs, sets, stores = export_run(exp, ".vtu", dt, cplx, "gf")
             cell = {key_of(t)[1]: _resolved(v, sets) for t, v in stores if key_of(t)[0] == CD}
             data_keys = {k: v for k, v in cell.items() if k in ("real", "imag", "data")}
@@ -251,7 +279,8 @@ def export_dispatch(ctx, first_key):
                         gotc[key_of(t)[1]] = roles.canon(inner, roles._NoDefs()).replace(" ", "")
                 ok = gotc == wantc and (pd is None or pd == "None")
                 msg = "element data (%s): cell data are %s, expected %s; point data `%s`" % ("complex" if cplx else "real", gotc, wantc, pd)
-            r.check(ok, "%s data, %s" % (dt, "complex" if cplx else "real"), IO, "export", exp.lineno, "export of %s data" % dt, msg)
+            label = "complex with all imaginary parts 0" if cplx == "zeroimag" else "complex" if cplx else "real"
+            r.check(ok, "%s data, %s" % (dt, label), IO, "export", exp.lineno, "export of %s data" % dt, msg.replace("(complex)", "(%s)" % label))
     # (3) rejections
     effs, _, _ = export_run(exp, ".vtu", "face", False, "gf")
     r.check(any(e[0] == "raise" for e in effs), "unknown data type rejected", IO, "export", exp.lineno, "unknown data_type", "data_type='face' is not rejected")
